@@ -349,6 +349,57 @@ def ackScript (rs : List IRg) (delay : Int) : Script :=
     chunkUintVar (r.stop - 1) :: chunkUintVar delay :: chunkUintVar ((rs.length : Int) - 1)
       :: chunkUintVar (r.stop - 1 - r.start) :: ackTail r.start rest
 
+/-- the `while first > 0` loop of `push_ack_frame(…, max_size)`: how many of the older ranges
+    (`older` = `rangeset[index-1]`, `rangeset[index-2]`, … highest first) still fit; `size_uint_var`
+    may raise ValueError -/
+def ackFit (maxSize : Int) : Int → Int → List IRg → Outcome Nat
+  | _, _, [] => .ok 0
+  | size, start, o :: rest =>
+    match sizeUintVar (start - o.stop - 1), sizeUintVar (o.stop - o.start - 1) with
+    | .ok a, .ok b =>
+      let size' := size + (a : Int) + (b : Int)
+      if size' > maxSize then .ok 0
+      else
+        match ackFit maxSize size' o.start rest with
+        | .ok k => .ok (k + 1)
+        | .error e => .error e
+    | .error e, _ => .error e
+    | _, .error e => .error e
+
+/-- `index - first`: the number of older ranges written -/
+def ackKeep (r : IRg) (older : List IRg) (delay : Int) (maxSize : Option Int) : Outcome Nat :=
+  match maxSize with
+  | none => .ok older.length
+  | some m =>
+    match sizeUintVar (r.stop - 1), sizeUintVar delay, sizeUintVar (older.length : Int),
+          sizeUintVar (r.stop - 1 - r.start) with
+    | .ok a, .ok b, .ok c, .ok d => ackFit m ((a : Int) + b + c + d) r.start older
+    | .error e, _, _, _ => .error e
+    | _, .error e, _, _ => .error e
+    | _, _, .error e, _ => .error e
+    | _, _, _, .error e => .error e
+
+/-- `push_ack_frame(buf, rangeset, delay, max_size)`: only the most recent ranges that fit in
+    `max_size` bytes are written (the range holding the largest packet number always is) -/
+def ackScriptMax (rs : List IRg) (delay : Int) (maxSize : Option Int) : Script :=
+  match rs.reverse with
+  | [] => [.error (.py .index)]
+  | r :: older =>
+    match ackKeep r older delay maxSize with
+    | .error e => [.error e]
+    | .ok k =>
+      chunkUintVar (r.stop - 1) :: chunkUintVar delay :: chunkUintVar (k : Int)
+        :: chunkUintVar (r.stop - 1 - r.start) :: ackTail r.start (older.take k)
+
+/-- its return value: the number of ranges written -/
+def ackRangesWritten (rs : List IRg) (delay : Int) (maxSize : Option Int) : Nat :=
+  match rs.reverse with
+  | [] => 0
+  | r :: older =>
+    match ackKeep r older delay maxSize with
+    | .ok k => k + 1
+    | .error _ => 0
+
 /-! ## Packet numbers -/
 
 /-- `decode_packet_number(truncated, num_bits, expected)` for non-negative
